@@ -130,8 +130,21 @@ fn reader_graph(name: &str, bytes: &[u8], declared: u64, depth_sweep: usize, l: 
     // self-test: the same path twice gives identical observations and fingerprints (determinism of the harness itself)
     {
         let p: Vec<usize> = (0..alpha.len().min(6)).collect();
-        if run_path(&p) != run_path(&p) {
-            machinery_failure("C15: replaying one path twice gave different observations (fingerprint not canonical?)");
+        let (o1, f1) = run_path(&p);
+        let (o2, f2) = run_path(&p);
+        if o1 != o2 {
+            // two fresh readers of the same bytes answer the same call sequence differently: that is the property
+            let at = o1.iter().zip(o2.iter()).position(|(a, b)| a != b).unwrap_or(0);
+            l.outcome("reader:fresh_readers_disagree");
+            l.violations.push(
+                Violation::new("C15", "fresh_readers_answer_the_same_calls_differently", json!({"engine": "reader_selftest", "file": name, "path": p.iter().take(at + 1).map(|&j| alpha[j].name()).collect::<Vec<_>>()}))
+                    .obs(json!(o2[at]))
+                    .exp(json!(o1[at])),
+            );
+            return;
+        }
+        if f1 != f2 {
+            machinery_failure("C15: replaying one path twice gave equal observations but different fingerprints (fingerprint not canonical)");
         }
     }
     // BFS with de-duplication over fingerprints
